@@ -493,6 +493,29 @@ func TextDesc(ascii string) []byte {
 	return b.Bytes()
 }
 
+// TextDescFull lays out every part of an ICC v2 textDescriptionType as the specification defines it - the ASCII
+// count and bytes, the Unicode language code, count and UTF-16BE bytes, the ScriptCode code, count and its 67-byte
+// field - with every count taken from the argument rather than from the data, so that counts and data can disagree.
+func TextDescFull(asciiCount uint32, ascii []byte, ucLang, ucCount uint32, uc []byte, scCode uint16, scCount uint8, sc []byte) []byte {
+	var b bytes.Buffer
+	b.WriteString("desc")
+	b.Write([]byte{0, 0, 0, 0})
+	var w [4]byte
+	binary.BigEndian.PutUint32(w[:], asciiCount)
+	b.Write(w[:])
+	b.Write(ascii)
+	binary.BigEndian.PutUint32(w[:], ucLang)
+	b.Write(w[:])
+	binary.BigEndian.PutUint32(w[:], ucCount)
+	b.Write(w[:])
+	b.Write(uc)
+	binary.BigEndian.PutUint16(w[:2], scCode)
+	b.Write(w[:2])
+	b.WriteByte(scCount)
+	b.Write(sc)
+	return b.Bytes()
+}
+
 // MlucRec is one multiLocalizedUnicode record.
 type MlucRec struct {
 	Lang, Country [2]byte
